@@ -36,12 +36,29 @@ Definition wrap_expression (ty : toktype) (tok : ExSyntax.text) : ExSyntax.text 
   | _ => r_at :: r_lparen :: tok ++ [r_rparen]
   end.
 
-(* func expression(expression string, tx) (string, error) *)
+(* func expression(expression string, tx) (string, error).  What a transformation leaves is printed and READ BACK
+   (second hunt, finding C11/1): when the printed text is not accepted by Parse the error is returned and Template
+   keeps the original expression *)
 Definition refactor_expression (src : ExSyntax.text) : rres :=
   match lex src with
   | LOk ts =>
       match parse_tokens ts with
-      | POk e => ROk (match tx e with Some e' => print lower printable e' | None => src end)
+      | POk e =>
+          match tx e with
+          | Some e' =>
+              let s := print lower printable e' in
+              match lex s with
+              | LOk ts' =>
+                  match parse_tokens ts' with
+                  | POk _ => ROk s
+                  | PSyntax => RErr
+                  | _ => ROutside
+                  end
+              | LNoRule => RErr          (* a rune no lexer rule takes: ERROR token, syntax error *)
+              | LFuel => ROutside
+              end
+          | None => ROk src
+          end
       | PSyntax => RErr
       | POutside => ROutside
       | PFuelOut => ROutside
@@ -216,21 +233,22 @@ Fixpoint captures (name : ExSyntax.text) (bnd : bool) (e : expr) : bool :=
   | _ => false
   end.
 
-(* every function with a parameter named `name`: those parameters, and the references named `name` in its body,
-   are called `fresh`; inb = inside such a function *)
-Fixpoint alpha (name fresh : ExSyntax.text) (inb : bool) (e : expr) : expr :=
+(* every function with a parameter named `name`: those parameters get the suffix of the fresh name appended to their
+   OWN spelling (two parameters that differ only by case stay two parameters: second hunt, finding C11/2), and the
+   references named `name` in its body are called `fresh`; inb = inside such a function *)
+Fixpoint alpha (name fresh suffix : ExSyntax.text) (inb : bool) (e : expr) : expr :=
   match e with
   | ECtxRef n => if inb && same_name n name then ECtxRef fresh else ECtxRef n
-  | EDot c l => EDot (alpha name fresh inb c) l
-  | EIndex c l => EIndex (alpha name fresh inb c) (alpha name fresh inb l)
-  | ECall f ps => ECall (alpha name fresh inb f) (map (alpha name fresh inb) ps)
+  | EDot c l => EDot (alpha name fresh suffix inb c) l
+  | EIndex c l => EIndex (alpha name fresh suffix inb c) (alpha name fresh suffix inb l)
+  | ECall f ps => ECall (alpha name fresh suffix inb f) (map (alpha name fresh suffix inb) ps)
   | EAnon a b =>
       if existsb (fun x => same_name x name) a
-      then EAnon (map (fun x => if same_name x name then fresh else x) a) (alpha name fresh true b)
-      else EAnon a (alpha name fresh inb b)
-  | EBin o a b => EBin o (alpha name fresh inb a) (alpha name fresh inb b)
-  | ENeg a => ENeg (alpha name fresh inb a)
-  | EParen a => EParen (alpha name fresh inb a)
+      then EAnon (map (fun x => if same_name x name then x ++ suffix else x) a) (alpha name fresh suffix true b)
+      else EAnon a (alpha name fresh suffix inb b)
+  | EBin o a b => EBin o (alpha name fresh suffix inb a) (alpha name fresh suffix inb b)
+  | ENeg a => ENeg (alpha name fresh suffix inb a)
+  | EParen a => EParen (alpha name fresh suffix inb a)
   | EText v => EText v
   | ENum l => ENum l
   | EBool b => EBool b
@@ -252,7 +270,8 @@ Fixpoint avoid (names used : list ExSyntax.text) (e : expr) : expr :=
       if captures name false e then
         let taken := used ++ target_names in
         let fresh := pick_fresh (S (length taken)) (name ++ [95]) taken in
-        avoid rest (fresh :: used) (alpha name fresh false e)
+        let suffix := skipn (length name) fresh in          (* strings.TrimPrefix(fresh, name) *)
+        avoid rest (fresh :: used) (alpha name fresh suffix false e)
       else avoid rest used e
   end.
 
@@ -265,3 +284,25 @@ Definition rename_tx (e : expr) : option expr :=
   if existsb is_from (frefs is_from e) then Some (rename_full e) else None.
 
 End Avoid.
+
+(* for statements about the parameters of anonymous functions *)
+(* no spelling occurs twice *)
+Fixpoint distinct (a : list ExSyntax.text) : bool :=
+  match a with
+  | [] => true
+  | x :: r => negb (existsb (text_eqb x) r) && distinct r
+  end.
+
+(* every anonymous function of the expression has parameters of pairwise different spelling *)
+Fixpoint distinct_params (e : expr) : bool :=
+  match e with
+  | EDot c _ => distinct_params c
+  | EIndex c l => distinct_params c && distinct_params l
+  | ECall f ps => distinct_params f && forallb distinct_params ps
+  | EAnon a b => distinct a && distinct_params b
+  | EBin _ a b => distinct_params a && distinct_params b
+  | ENeg a => distinct_params a
+  | EParen a => distinct_params a
+  | _ => true
+  end.
+
